@@ -1,0 +1,19 @@
+//go:build verif
+
+package security
+
+import "time"
+
+// Verification hook (build tag "verif" only): simulated time for the per-client accounting
+// window of the rate limiter.
+
+// VerifAgeWindows makes every client's current accounting window look d older, as if the
+// client had started it that much earlier. The token buckets are not touched.
+func (rl *RateLimitValidator) VerifAgeWindows(d time.Duration) {
+	rl.ipLimiters.Range(func(_ string, info *ipLimiterInfo) bool {
+		info.mu.Lock()
+		info.windowStart = info.windowStart.Add(-d)
+		info.mu.Unlock()
+		return true
+	})
+}
